@@ -80,12 +80,15 @@ def rule_windowed_to_graph(chk: Check, model: Model, rid: str):
         chk.add(rid, f"WindowedGraph.to_graph Vertex.{f}", bool(src) and v.get(f) == T.mk_attr(src[0], f), f"Vertex.{f} = {T.show(v.get(f, T.NONE))[:120]}", chk.loc(fi, vs[0].node))
     e = _fields(es[0].term)
 
-    def base_attr(t):
-        for x in T.walk(t):
-            if x[0] == "attr" and x[2] in ("seq", "ts_recv", "ts_sent") and x[1][0] == "index" and x[1][1][0] == "elem":
-                return x
-        return None
-    so, si, tr = base_attr(e.get("seq_out", T.NONE)), base_attr(e.get("seq_in", T.NONE)), base_attr(e.get("ts_recv", T.NONE))
+    def base_attrs(t):
+        return [x for x in T.walk(t) if x[0] == "attr" and x[2] in ("seq", "ts_recv", "ts_sent") and x[1][0] == "index" and x[1][1][0] == "elem"]
+
+    def pick(t, windows: bool):
+        c = [x for x in base_attrs(t) if mentions(x[1], "windows") == windows]
+        # the outermost data source: not the one only used for a shape
+        c = [x for x in c if not any(y[0] == "attr" and y[2] == "shape" and y[1] == x for y in T.walk(t))] or c
+        return c[0] if c else None
+    so, si, tr = pick(e.get("seq_out", T.NONE), True), pick(e.get("seq_in", T.NONE), False), pick(e.get("ts_recv", T.NONE), True)
     ok = so is not None and so[2] == "seq" and mentions(so[1], "windows") and tr is not None and tr[2] == "ts_recv" and tr[1] == so[1]
     chk.add(rid, "WindowedGraph.to_graph Edge.seq_out/ts_recv", ok, "Edge.seq_out / ts_recv must be the window's seq / ts_recv", chk.loc(fi, es[0].node))
     ok = si is not None and si[2] == "seq" and not mentions(si[1], "windows") and mentions(e.get("seq_in"), "repeat")
